@@ -25,7 +25,7 @@ func checkCategorical(c *core.Ctx, p *packages.Package, d *declIndex) {
 	const K = 3
 	th := func(i int) *sym.Term { return symf("th_%d", i) }
 	cfg := vn.Config{Pkg: p, TypeName: "Real64", Spec: distSpec, InlineOps: inlineOps, Decl: d.find, ParamNames: true, MaxDepth: 6, UnrollConst: true,
-		ParamValues: map[string]vn.Value{"theta_": vn.NewLocalVec(th(0), th(1), th(2))}}
+		ParamList: []vn.Value{vn.NewLocalVec(th(0), th(1), th(2))}}
 	paths, und := vn.Run(cfg, ctor)
 	if und != nil {
 		c.Unknown("C14.R7", cons, "constructor interpreted", und.Pos, "constructor left the interpreter's idiom set: "+und.Msg)
@@ -73,7 +73,7 @@ func checkCategorical(c *core.Ctx, p *packages.Package, d *declIndex) {
 			r := &vn.Loc{Name: "r", Val: symf("stale_r"), Consistent: true}
 			x := &vn.Loc{Name: "x", Val: sym.Int(int64(k)), Consistent: true, Const: true}
 			cfg2 := vn.Config{Pkg: p, TypeName: "Real64", Spec: distSpec, InlineOps: inlineOps, Decl: d.find, ParamNames: true, MaxDepth: 6, UnrollConst: true,
-				RecvStruct: obj, RecvFresh: true, ParamValues: map[string]vn.Value{"r": r, "x": x}, ParamFresh: true}
+				RecvStruct: obj, RecvFresh: true, ParamList: []vn.Value{r, x}, ParamFresh: true}
 			mp, und := vn.Run(cfg2, fd)
 			detail := fmt.Sprintf("%s(%d) equals its definition", m, k)
 			if und != nil {
